@@ -206,7 +206,9 @@ pub fn install_panic_hook() {
         if IN_MONITOR.with(|f| f.get()) {
             LAST_PANIC.with(|p| *p.borrow_mut() = info.to_string());
         } else if !IN_TX.with(|f| f.get()) {
-            eprintln!("HARNESS PANIC: {}\n{}", info, std::backtrace::Backtrace::capture());
+            let bt = std::backtrace::Backtrace::capture().to_string();
+            let short: Vec<&str> = bt.lines().filter(|l| l.contains("krpmon::") || l.contains("./harness/src")).take(12).collect();
+            eprintln!("HARNESS PANIC: {}\n{}", info, short.join("\n"));
         }
     }));
 }
